@@ -537,8 +537,16 @@ class Model(Object):
         if len(bad_ids) != 0:
             raise ValueError(f"invalid identifiers in {repr(bad_ids)}")
 
+        context = get_context(self)
         for x in metabolite_list:
             x._model = self
+            # A metabolite of the model only lists reactions of the model, not e.g.
+            # the model-less reaction it was taken over from.
+            outside = {rxn for rxn in x._reaction if rxn._model is not self}
+            if outside:
+                x._reaction.difference_update(outside)
+                if context:
+                    context(partial(x._reaction.update, outside))
         self.metabolites += metabolite_list
 
         # from cameo ...
@@ -550,7 +558,6 @@ class Model(Object):
 
         self.add_cons_vars(to_add)
 
-        context = get_context(self)
         if context:
             context(partial(self.metabolites.__isub__, metabolite_list))
             for x in metabolite_list:
